@@ -7,11 +7,13 @@ LEVEL_TEXT = ("bounded symbolic model checking of the real Go code: the anchored
 NOTE_COMMON = ("trusted: go/ssa lowering, the gosym interpreter and its Int-with-wrap encoding, the theory summaries of math.Int/LegacyDec/sdk.Coins/big.Int/time "
   "(cross-checked each run by replaying solver-chosen traces through the native build), z3; ")
 checks = {
+ "C04": dict(note="PARTIAL (staking precompile delegate/undelegate + allowance methods): success => the account acted for is the signer or the immediate caller; a caller other than the signer needs a live StakeAuthorization of the right type covering the amount; a limited grant is reduced by exactly the amount used, removed at 0, never overspent; every sequence of <= 3 approve/increase/decrease/revoke/spend keeps the stored grant equal to the running-allowance model. NOT decided: distribution / ICS-20 precompiles, redelegate / cancelUnbonding / createValidator", design="6/C04"),
+ "C16": dict(note="PARTIAL: staking delegate/undelegate hand the module exactly the native message (delegator = named account, validator, amount in bond denom), once, never on failure, and mirror the debit into the StateDB only for caller = delegator; bank precompile balances/totalSupply/supplyOf report exactly the bank module's figures for every denomination with an ERC-20 address. NOT decided: distribution / ICS-20, read-only staking queries, ABI encoding, gas", design="6/C16"),
  "C01": dict(note="PARTIAL: decides that StateDB.Commit issues its keeper writes in ascending (address, storage key) order for every iteration order of the dirty-account / dirty-storage maps (Go map order modelled as an arbitrary permutation, all explored), i.e. journal.sortedDirties and Storage.SortedKeys make the commit independent of map order; NOT decided: app-hash equality of replicas over block histories, goroutine-fed counters, Begin/EndBlocker ordering", design="6/C01", technique="bounded symbolic execution of go/ssa with nondeterministic map iteration order; exhaustive enumeration of orders"),
  "C02": dict(note="PARTIAL: decides on the real StateDB/journal/state objects that every bounded program of value transfers, self-destructs and (reverting) call frames commits balances = before + received - paid, total supply = sum of surviving balances and never above the initial supply (ledger keeper reproduces SetBalance's mint/burn delta); NOT decided: precompile calls and their balance mirroring (suspected overwrite of Cosmos-side debits, DESIGN.md section 8), fees", design="6/C02", technique="bounded symbolic execution of go/ssa; exhaustive enumeration of bounded operation programs"),
  "C05": dict(note="decides on the real StateDB/journal: after RevertToSnapshot every getter answers as at Snapshot(); after the final Commit the stores hold exactly the surviving writes, for every bounded program incl. the mid-transaction Commit every stateful precompile performs. One genuine defect is recorded as known finding C05-F2 (flushed state of a later-reverted frame survives; reproduced on the full app). NOT decided: Cosmos-side effects of precompile bodies (not journaled - architectural finding in DESIGN.md)", design="6/C05", technique="bounded symbolic execution of go/ssa; exhaustive enumeration of bounded operation programs"),
  "C07": dict(note="decides: gasUsed = max(floor(gasLimit x minGasMultiplier), EVM gas after the EIP-3529 refund) <= gasLimit for any interpreter outcome (real ApplyMessageWithConfig, EVM stubbed); after RefundGas the sender's net payment and the fee collector's income are exactly gasUsed x effective price; VerifyFee = gasLimit x effective price and rejects fee cap < base fee; eth-route and Cosmos-route min-gas-price decorators accept only fee >= gasLimit x minGasPrice (two-sided). NOT decided: contract creation, DeductFees plumbing, multi-message ApplyTransaction", design="6/C07"),
- "C03": dict(note="PARTIAL (replay protection only): decides that the eth-route sequence decorator accepts a message iff nonce = sender's current sequence, consumes exactly one sequence number per accepted message (any interleaving of 2 senders, <= 3 messages) and rejects an immediate replay; NOT decided: that signatures bind content and chain id (keccak/RLP/secp256k1/EIP-712 cannot be encoded), the Cosmos/EIP-712 routes", design="6/C03"),
+ "C03": dict(note="PARTIAL (replay protection only): decides that the eth-route sequence decorator accepts a message iff nonce = sender's current sequence, consumes exactly one sequence number per accepted message (any interleaving of 2 senders, <= 3 messages) and rejects an immediate replay; and that the legacy EIP-712 decorator accepts only a signature made for the account's current sequence and hands (this chain id, account number, current sequence) to the cryptographic check (VerifySignature replaced by a recorder). NOT decided: that signatures bind content (keccak/RLP/secp256k1/EIP-712 hashing cannot be encoded), the plain Cosmos route", design="6/C03"),
  "C18": dict(note="PARTIAL: decides that FromEthereumTx -> packed tx data -> AsTransaction is the identity on every field (nonce, gas, price/tip/cap, value, to, data, access list, chain id, v/r/s, type) for the three types incl. nil vs zero, and that Fee / Cost / EffectiveGasPrice / EffectiveFee / EffectiveCost equal the go-ethereum figures of the original. NOT decided: the protobuf encode/decode leg (BuildTx, TxEncoder/Decoder), hash and sender equality (they are functions of exactly the compared fields; keccak/RLP/secp256k1 are not encoded)", design="6/C18"),
  "C06": dict(note="decides on the real handler built by NewAnteHandler: unknown first extension option => rejected; top-level MsgEthereumTx on any Cosmos route => rejected; a disabled type inside MsgExec at any depth within the bound, or granted by MsgGrant => rejected; nothing-blocked forests pass the blocking checks (two-sided). Exhaustive enumeration of bounded message forests (all values concrete after the symbolic choice). NOT decided: per-decorator type assertions on the eth route", design="6/C06", technique="bounded symbolic execution of go/ssa; exhaustive path enumeration over bounded message forests (solver used for feasibility/witnesses only)"),
  "C19": dict(note="PARTIAL: decides Export(Init(Export(S))) = Export(S) and getter agreement for coinomics, fee market, liquid vesting and UC DAO from an arbitrary module state; NOT decided: x/evm, x/erc20, vesting accounts (x/auth), epochs, app/export.go, and the JSON/protobuf encoding of the document", design="6/C19"),
@@ -25,7 +27,7 @@ checks = {
 }
 na = {
 }
-pending = "C04 C10 C16".split()
+pending = "C10".split()
 m = {
  "version": 1,
  "setup_cmd": "cd /verif/engine && GOFLAGS=-mod=mod GOPROXY=off GOSUMDB=off GOTOOLCHAIN=local go build -o /verif/bin/vcheck ./cmd/vcheck",
